@@ -42,6 +42,9 @@ func (expr Expr) Build(builder Builder) {
 					case reflect.Slice, reflect.Array:
 						if rv.Len() == 0 {
 							builder.AddVar(builder, nil)
+						} else if rv.Type().Elem().Kind() == reflect.Uint8 {
+							// a []byte is one value, not a list
+							builder.AddVar(builder, expr.Vars[idx])
 						} else {
 							for i := 0; i < rv.Len(); i++ {
 								if i > 0 {
@@ -150,6 +153,9 @@ func (expr NamedExpr) Build(builder Builder) {
 					case reflect.Slice, reflect.Array:
 						if rv.Len() == 0 {
 							builder.AddVar(builder, nil)
+						} else if rv.Type().Elem().Kind() == reflect.Uint8 {
+							// a []byte is one value, not a list
+							builder.AddVar(builder, expr.Vars[idx])
 						} else {
 							for i := 0; i < rv.Len(); i++ {
 								if i > 0 {
